@@ -15,9 +15,10 @@ from .builtins_model import BuiltinMixin
 from .heapmodel import HeapMixin
 from .specmode import SpecMixin
 from .ghost import GhostMixin
+from .bytesmodel import BytesMixin
 
 
-class Interp(ExprMixin, StmtMixin, CallMixin, BuiltinMixin, HeapMixin, SpecMixin, GhostMixin):
+class Interp(ExprMixin, StmtMixin, CallMixin, BuiltinMixin, HeapMixin, SpecMixin, GhostMixin, BytesMixin):
     def __init__(self, program, ctl, timeout_ms=2000, spec_env=None):
         self.P = program
         self.ctl = ctl
@@ -44,7 +45,11 @@ class Interp(ExprMixin, StmtMixin, CallMixin, BuiltinMixin, HeapMixin, SpecMixin
         self.call_depth = 0
         self.trace = []             # human-readable decision labels
         self.events = []            # ghost trace of external effects (encoder calls...)
+        self.bconsts = {}
         self.init_ghost()
+        self.deferred = []
+        self.touched_idx = []
+        self.inst_done = set()
 
     # ------------------------------------------------------------------
     # fresh symbols
@@ -72,6 +77,45 @@ class Interp(ExprMixin, StmtMixin, CallMixin, BuiltinMixin, HeapMixin, SpecMixin
             raise Abort()
         self.pc.append(c)
         self.solver.add(c)
+
+    # quantified assumptions (representation invariants over symbolic maps) are
+    # kept out of the path condition: they are instantiated at every index a
+    # path touches and at the Skolem constants of the goals (prove.discharge);
+    # the full quantified formula is only used as a fallback at discharge time.
+    def assume_spec(self, f):
+        f = simp_bool(f)
+        if isinstance(f, bool):
+            return self.assume(f)
+        for c in self.conjuncts(f):
+            if z3.is_quantifier(c) and c.is_forall() and c.num_vars() == 1:
+                self.deferred.append(c)
+                for idx in list(self.touched_idx):
+                    self.instantiate_one(c, idx)
+            else:
+                self.assume(c)
+
+    def conjuncts(self, f):
+        if z3.is_and(f):
+            out = []
+            for c in f.children():
+                out.extend(self.conjuncts(c))
+            return out
+        return [f]
+
+    def instantiate_one(self, q, idx):
+        key = (q.get_id(), zint(idx).get_id() if not isinstance(idx, int) else ('c', idx))
+        if key in self.inst_done:
+            return
+        self.inst_done.add(key)
+        self.assume(z3.substitute_vars(q.body(), zint(idx)))
+
+    def touch_index(self, idx):
+        idx = zint(idx)
+        if any(z3.eq(idx, t) for t in self.touched_idx):
+            return
+        self.touched_idx.append(idx)
+        for q in self.deferred:
+            self.instantiate_one(q, idx)
 
     def check(self, extra=None):
         if extra is None:
